@@ -199,7 +199,7 @@ class Family:
                         odial = dials[(i // 4 + 1 + i % 5) % 6]
                         other = tf.TinyFlux(os.path.join(d, f"o{i}.csv"), **odial)
                         other.insert(tf.Point(time=V.dt_of(T0), tags={"o": "a,b;c|d\te'f"}))
-                    db = tf.TinyFlux(path, encoding=enc, **dial)
+                    db = tf.TinyFlux(path, encoding=enc, **dial, **({"access_mode": "w+"} if i % 8 == 7 else {}))
                     if other is not None:
                         other.insert(tf.Point(time=V.dt_of(T0 + 1), tags={"o": "a,b;c|d\te'f"}))
                     for j, pt in enumerate(sample):
